@@ -46,18 +46,18 @@ func IsKilled(v any) bool { _, ok := v.(killedT); return ok }
 // Task is one simulated thread of control.
 type Task struct {
 	declined int // consecutive yields declined without parking
-	ID    int64
-	Name  string
-	Node  int
-	s     *Sim
-	gate  chan struct{}
-	state int32
-	why   string
-	dead  bool // node crashed: never released again
-	lockK any
-	gid   int64
-	quiet int
-	cond  func() bool // stWaiting: runnable again once cond() is true (evaluated on the driver)
+	ID       int64
+	Name     string
+	Node     int
+	s        *Sim
+	gate     chan struct{}
+	state    int32
+	why      string
+	dead     bool // node crashed: never released again
+	lockK    any
+	gid      int64
+	quiet    int
+	cond     func() bool // stWaiting: runnable again once cond() is true (evaluated on the driver)
 }
 
 // PanicInfo records a panic that escaped a task.
@@ -141,7 +141,7 @@ type Sim struct {
 	FSCrashed      string
 	FSNames        []string
 	RecordFS       bool
-	nodeFS         map[int]int     // node -> FS points left until that node crashes (cluster engine)
+	nodeFS         map[int]int               // node -> FS points left until that node crashes (cluster engine)
 	OnNodeFSCrash  func(node int, at string) // bookkeeping of the harness, called on the crashing task before it dies
 }
 
